@@ -446,6 +446,12 @@ func (e *Exec) contractCall(f *ssa.Function, ct *FuncContract, c *ssa.CallCommon
 	}
 	pre := &Env{e: e, st: callState, old: callState, names: params, pkg: f.Pkg.Pkg, oldNames: params}
 	for i, rq := range ct.Requires {
+		if rq.Group != "" {
+			e.root().GroupsSeen[rq.Group] = true
+		}
+		if !clauseOn(rq) || !clauseEmit(rq) {
+			continue
+		}
 		t := e.evalContractBool(rq.Expr, pre, "requires of "+ct.Name)
 		e.oblige("pre", ct.Name+":"+labelOr(rq.Label, i), t, unionProps(ct.Props, []string{"C08"}), rq.Src)
 	}
@@ -475,10 +481,16 @@ func (e *Exec) contractCall(f *ssa.Function, ct *FuncContract, c *ssa.CallCommon
 	}
 	bindResults(post.names, f, ret)
 	for _, en := range ct.Ensures {
+		if !clauseOn(en) {
+			continue
+		}
 		t := e.evalContractBool(en.Expr, post, "ensures of "+ct.Name)
 		e.assume(Implies(e.guard(), t))
 	}
 	for i, en := range ct.Assumes {
+		if !clauseOn(en) {
+			continue
+		}
 		t := e.evalContractBool(en.Expr, post, "assumes of "+ct.Name)
 		e.assume(Implies(e.guard(), t))
 		e.root().Assumed["assumed postcondition "+FuncKey(f)+"#"+labelOr(en.Label, i)+": "+en.Src] = true
